@@ -14,4 +14,5 @@ def build(tier):
     obs.append(e2obs.ob_valid_witnesses('C05', big=not quick_(tier)))
     if not quick_(tier):
         obs.append(e2obs.ob_corpus())
+        obs.append(e2obs.ob_second_opinion("C05", D))      # after all other z3 obligations of this run (they run in list order)
     return dict(obligations=obs, explanation="x", assumptions=[])
